@@ -219,12 +219,10 @@ Definition P_stuck (c : core) : bool :=
 
 Definition P_fixed (c : core) : bool := P_safe c && P_result c && P_stuck c.
 
-Lemma fixed_checked : forallb (check P_fixed) (params_of true) = true.
-Proof. vm_compute. reflexivity. Qed.
 
-Theorem fixed_core p nstop (sched : list nat) :
-  fixed p = true ->
-  P_fixed (co (fst (run step sched (init p nstop, [])))) = true.
-Proof.
-  intros Hf. eapply (check_all P_fixed true fixed_checked p Hf). apply run_areach.
-Qed.
+Definition p0 := {| fixed := true; is_write := false; remote := true; pre := false; ready0 := false; fail := None; pollable := true |}.
+Time Eval vm_compute in (core_eqb (init_core p0) (init_core p0)).
+Time Eval vm_compute in (List.length (asucc (init_core p0))).
+Time Eval vm_compute in (match explore 50 [init_core p0] [(hash (init_core p0), init_core p0)] with Some R => Some (List.length R) | None => None end).
+Time Eval vm_compute in (List.length (reach_set p0)).
+Time Eval vm_compute in (check P_fixed p0).
